@@ -200,6 +200,14 @@ let expected (type nd) (mc : nd machine) (runs : run list) : (string * string li
            (r.name, List.map render (mc.runf o ops_b)))
        (List.tl runs)
 
+(* equality of result tokens. A refusal that the MODEL attributes to the node's own admission policy (before the STF) matches
+   any refusal `no:<kind>` of the implementation: <kind> is the sanitised error TEXT, which the property does not fix (the harmless
+   change neutral/C26/N2 rewords these messages). STF rejections are compared as learned from run A of the same binary. *)
+let tok_eq (impl : string) (model : string) : bool =
+  impl = model
+  || ((model = "no:refused_ancestry" || model = "no:refused_noparent" || model = "no:refused_nohead")
+      && String.length impl >= 3 && String.sub impl 0 3 = "no:")
+
 (* first difference between implementation and expectation *)
 let first_diff (runs : run list) (exp : (string * string list) list) : (string * int * string * string * string) option =
   let res = ref None in
@@ -210,7 +218,7 @@ let first_diff (runs : run list) (exp : (string * string list) list) : (string *
         let rec go i l1 l2 =
           match l1, l2 with
           | [], [] -> ()
-          | x :: t1, y :: t2 -> if x <> y then res := Some (r.name, i, fst (List.nth r.toks i), x, y) else go (i + 1) t1 t2
+          | x :: t1, y :: t2 -> if not (tok_eq x y) then res := Some (r.name, i, fst (List.nth r.toks i), x, y) else go (i + 1) t1 t2
           | x :: _, [] -> res := Some (r.name, i, fst (List.nth r.toks i), x, "(nothing)")
           | [], y :: _ -> res := Some (r.name, i, "(end)", "(nothing)", y)
         in
